@@ -188,7 +188,8 @@ def check_config(ctx, F, tag):
             if bl[0] == "const":
                 ok = bl[1] == dflt and dflt > 0 and dflt % 64 == 0
             else:
-                ok = m(Call(lambda n: n.endswith("cmp::max"), Call("bits::round_up_to_word_bits", ANY), Const(64)), bl)
+                from guards import is_max_name
+                ok = m(Call(is_max_name, Call("bits::round_up_to_word_bits", ANY), Const(64)), bl) or m(Call(is_max_name, Const(64), Call("bits::round_up_to_word_bits", ANY)), bl)
             ln = b.term_of_operand(ops["len"])
             fl = core(b.term_of_operand(ops["file"]))
             ok = ok and m(Const(0), ln) and fl[0] == "adt" and fl[2] == "Some"
